@@ -329,12 +329,22 @@ def main():
         lam = float(rng.uniform(10, 80))
         tau = float(rng.uniform(40, 150))
         ta = qr.TimeAxis(0.0, 1000, 1.0)
-        for withT in (False, True, "underdamped"):
+        for withT in (False, True, "underdamped", "Underdamped", "B777",
+                      "CP29"):
             rp = dict(kind="spectral-density", reorg=lam, cortime=tau,
                       T_in_params=withT)
             with ck.guarded("spectral-density", "sd", rp, rp):
                 p = dict(ftype="OverdampedBrownian", reorg=lam, cortime=tau)
-                if withT == "underdamped":
+                if withT in ("Underdamped", "B777", "CP29"):
+                    # the other analytic bath models of the library
+                    p = dict(ftype=withT, reorg=lam)
+                    if withT == "Underdamped":
+                        p.update(freq=float(rng.uniform(150, 500)),
+                                 gamma=(1.0 / tau))
+                    elif withT == "B777":
+                        p.update(alternative_form=True)
+                    withT = False
+                elif withT == "underdamped":
                     # another bath model: detailed balance does not depend
                     # on the shape of the spectral density
                     p = dict(ftype="UnderdampedBrownian", reorg=lam,
@@ -343,7 +353,10 @@ def main():
                     withT = False
                 if withT:
                     p["T"] = 300.0
-                with qr.energy_units("1/cm"):
+                import io
+                import contextlib
+                with qr.energy_units("1/cm"), contextlib.redirect_stdout(
+                        io.StringIO()):
                     sd = qr.SpectralDensity(ta, p)
                 w = numpy.array(sd.axis.data)
                 d = numpy.real(numpy.array(sd.data))
@@ -387,6 +400,27 @@ def main():
                                      dict(rp, T=Tq,
                                           got=float(cf.get_temperature())),
                                      rp)
+
+                # a correlation function requested at a temperature other
+                # than the one used last is the one a fresh object gives
+                with qr.energy_units("1/cm"), contextlib.redirect_stdout(
+                        io.StringIO()):
+                    sd_f = qr.SpectralDensity(ta, dict(p))
+                Tn = 200.0
+                cf_u = sd.get_CorrelationFunction(temperature=Tn)
+                cf_f = sd_f.get_CorrelationFunction(temperature=Tn)
+                du = numpy.array(cf_u.data)
+                df = numpy.array(cf_f.data)
+                e = float(numpy.abs(du - df).max()) / max(
+                    float(numpy.abs(df).max()), 1e-300)
+                ck.case("cf-at-requested-temperature", (s, str(withT),
+                                                        p["ftype"]),
+                        sample=dict(rp, T=Tn, err=e))
+                if e > 1e-12 or abs(cf_u.get_temperature() - Tn) > 1e-12:
+                    ck.violation("ft-detailed-balance",
+                                 "sd:cf-at-requested-temperature",
+                                 dict(rp, T=Tn, err=e,
+                                      got=float(cf_u.get_temperature())), rp)
 
     ck.assume("stub binding uses non-degenerate eigen-energies (eigenvectors "
               "of degenerate levels are not unique); TLC covers ties")
